@@ -133,9 +133,14 @@ pub fn setregs_at(rng: &mut Rng, rip: u64) -> String {
 
 /// a random branchy program over mov/add/sub/cmp/inc/dec/jcc/jmp/call/ret/push/pop/nop
 pub fn random_program(rng: &mut Rng, n: usize, rets: bool) -> Vec<Ins> {
+    random_program_on(rng, n, rets, &[0, 1, 2, 3])
+}
+
+/// a random program that names only the given registers (of rax rcx rdx rbx)
+pub fn random_program_on(rng: &mut Rng, n: usize, rets: bool, regs: &[u8]) -> Vec<Ins> {
     let mut p = vec![];
     for _ in 0..n {
-        let r = rng.below(4) as u8; // rax rcx rdx rbx
+        let r = *rng.pick(regs);
         let t = rng.below(n as u64 + 1) as usize;
         let i = match rng.below(20) {
             0 | 1 => mov_r_imm32(r, rng.below(6) as u32),
@@ -150,7 +155,7 @@ pub fn random_program(rng: &mut Rng, n: usize, rets: bool) -> Vec<Ins> {
             14 | 15 if rets => ret(),
             16 => push_r(r),
             17 => pop_r(r),
-            18 => jrcxz(t),
+            18 if regs.contains(&1) => jrcxz(t),
             _ => nop(),
         };
         p.push(i);
